@@ -351,6 +351,16 @@ def run_shard(sh: Shard) -> None:
     ndocs = -(-total // sh.nshards)
     hist, feats = {}, {}
     done = 0
+    # the directed corpus first (spread over the shards, independent of the budget)
+    for i, case in enumerate(G.directed_cases()):
+        if sh.mine(i):
+            res = run_case(sh, case, hist)
+            sh.count("directed_documents")
+            if "skip" in res:
+                res = run_case(sh, case, hist)  # a directed document interrupted by the wall clock is repeated once
+            if "skip" not in res:
+                for f in case["meta"]["features"]:
+                    feats[f] = feats.get(f, 0) + 1
     for i in range(ndocs * 3):
         # the soft budget stops a shard only after its first two cases (a busy machine must not starve the minimum)
         if done >= ndocs or (sh.out_of_budget() and done >= 2):
